@@ -233,8 +233,9 @@ fn gen_persp(rng: &mut Rng) -> Persp {
     let width = small_q_pos(rng, 9, 4);
     let height = if rng.chance(1, 10) { width } else { small_q_pos(rng, 9, 4) };
     let aspect = width / height;
-    let n = small_q_pos(rng, 9, 4);
-    let f = n + small_q_pos(rng, 9, 4);
+    // near planes far below the element type's epsilon are legal too (a scene in tiny units)
+    let n = if rng.chance(1, 8) { small_q_pos(rng, 9, 4) * Q::frac(1, 1i64 << *rng.pick(&[30u32, 55, 60])) } else { small_q_pos(rng, 9, 4) };
+    let f = if rng.chance(1, 2) { n + small_q_pos(rng, 9, 4) } else { n * (Q::ONE + small_q_pos(rng, 9, 4)) };
     let tan_half = ang.s_half / ang.c_half;
     let top = n * tan_half;
     let right = top * aspect;
@@ -710,6 +711,203 @@ fn mirror_case<M: Lay>(sub: &mut Sub, cfg: &Config, idx: u64) {
     }
 }
 
+// ------------------------------------------------------------------ float tier
+
+trait FLay<T>: MatX<T> + Copy {
+    fn build(which: usize, pl: FrustumPlanes<T>, fov: T, aspect: T, w: T, h: T, n: T, f: T, eps: T) -> Self;
+}
+/// constructor table of the float tier: (name, family, hand, depth) with family 0 = ortho without
+/// depth planes, 1 = ortho, 2 = frustum, 3 = perspective, 4 = perspective_fov, 5 = tweaked infinite,
+/// 6 = infinite
+const FCTORS: [(&str, u8, Hand, Depth); 21] = [
+    ("Mat4::orthographic_without_depth_planes", 0, R, NO),
+    ("Mat4::orthographic_lh_zo", 1, L, ZO),
+    ("Mat4::orthographic_lh_no", 1, L, NO),
+    ("Mat4::orthographic_rh_zo", 1, R, ZO),
+    ("Mat4::orthographic_rh_no", 1, R, NO),
+    ("Mat4::frustum_lh_zo", 2, L, ZO),
+    ("Mat4::frustum_lh_no", 2, L, NO),
+    ("Mat4::frustum_rh_zo", 2, R, ZO),
+    ("Mat4::frustum_rh_no", 2, R, NO),
+    ("Mat4::perspective_lh_zo", 3, L, ZO),
+    ("Mat4::perspective_lh_no", 3, L, NO),
+    ("Mat4::perspective_rh_zo", 3, R, ZO),
+    ("Mat4::perspective_rh_no", 3, R, NO),
+    ("Mat4::perspective_fov_lh_zo", 4, L, ZO),
+    ("Mat4::perspective_fov_lh_no", 4, L, NO),
+    ("Mat4::perspective_fov_rh_zo", 4, R, ZO),
+    ("Mat4::perspective_fov_rh_no", 4, R, NO),
+    ("Mat4::tweaked_infinite_perspective_lh", 5, L, NO),
+    ("Mat4::tweaked_infinite_perspective_rh", 5, R, NO),
+    ("Mat4::infinite_perspective_lh", 6, L, NO),
+    ("Mat4::infinite_perspective_rh", 6, R, NO),
+];
+macro_rules! impl_flay {
+    ($M:ident, $T:ty) => {
+        impl FLay<$T> for $M<$T> {
+            fn build(which: usize, pl: FrustumPlanes<$T>, fov: $T, aspect: $T, w: $T, h: $T, n: $T, f: $T, eps: $T) -> Self {
+                match which {
+                    0 => $M::<$T>::orthographic_without_depth_planes(pl),
+                    1 => $M::<$T>::orthographic_lh_zo(pl),
+                    2 => $M::<$T>::orthographic_lh_no(pl),
+                    3 => $M::<$T>::orthographic_rh_zo(pl),
+                    4 => $M::<$T>::orthographic_rh_no(pl),
+                    5 => $M::<$T>::frustum_lh_zo(pl),
+                    6 => $M::<$T>::frustum_lh_no(pl),
+                    7 => $M::<$T>::frustum_rh_zo(pl),
+                    8 => $M::<$T>::frustum_rh_no(pl),
+                    9 => $M::<$T>::perspective_lh_zo(fov, aspect, n, f),
+                    10 => $M::<$T>::perspective_lh_no(fov, aspect, n, f),
+                    11 => $M::<$T>::perspective_rh_zo(fov, aspect, n, f),
+                    12 => $M::<$T>::perspective_rh_no(fov, aspect, n, f),
+                    13 => $M::<$T>::perspective_fov_lh_zo(fov, w, h, n, f),
+                    14 => $M::<$T>::perspective_fov_lh_no(fov, w, h, n, f),
+                    15 => $M::<$T>::perspective_fov_rh_zo(fov, w, h, n, f),
+                    16 => $M::<$T>::perspective_fov_rh_no(fov, w, h, n, f),
+                    17 => $M::<$T>::tweaked_infinite_perspective_lh(fov, aspect, n, eps),
+                    18 => $M::<$T>::tweaked_infinite_perspective_rh(fov, aspect, n, eps),
+                    19 => $M::<$T>::infinite_perspective_lh(fov, aspect, n),
+                    _ => $M::<$T>::infinite_perspective_rh(fov, aspect, n),
+                }
+            }
+        }
+    };
+}
+impl_flay!(Rows4, f32);
+impl_flay!(Cols4, f32);
+impl_flay!(Rows4, f64);
+impl_flay!(Cols4, f64);
+
+trait Fl: Copy + std::fmt::Debug {
+    const TY: &'static str;
+    const EPS: f64;
+    fn of(x: f64) -> Self;
+    fn to64(self) -> f64;
+}
+impl Fl for f32 {
+    const TY: &'static str = "f32";
+    const EPS: f64 = f32::EPSILON as f64;
+    fn of(x: f64) -> f32 {
+        x as f32
+    }
+    fn to64(self) -> f64 {
+        self as f64
+    }
+}
+impl Fl for f64 {
+    const TY: &'static str = "f64";
+    const EPS: f64 = f64::EPSILON;
+    fn of(x: f64) -> f64 {
+        x
+    }
+    fn to64(self) -> f64 {
+        self
+    }
+}
+
+/// one float case: one random volume / field of view through all 21 constructors of one layout
+fn float_case<T: Fl, M: FLay<T>>(sub: &mut Sub, cfg: &Config, idx: u64, lay: &str) {
+    let mut rng = Rng::for_case(&format!("float_corners/{}", T::TY), cfg.case_seed(), idx);
+    let pair = |rng: &mut Rng, a: f64| loop {
+        let (x, y) = (T::of(rng.f64_in(-a, a)).to64(), T::of(rng.f64_in(-a, a)).to64());
+        if (x - y).abs() > 0.05 * a {
+            return (x, y);
+        }
+    };
+    let (l, r) = pair(&mut rng, 10.0);
+    let (b, t) = pair(&mut rng, 10.0);
+    let n = T::of(10f64.powf(rng.f64_in(-2.0, 1.5))).to64();
+    let f = T::of(n * (1.1 + 10f64.powf(rng.f64_in(-1.0, 3.0)))).to64();
+    // field of view: a third narrow (telescopic, down to 3e-4 rad), the rest ordinary
+    let fov = T::of(if rng.chance(1, 3) { 10f64.powf(rng.f64_in(-3.5, -0.5)) } else { rng.f64_in(0.1, 3.0) }).to64();
+    let (w, h) = (T::of(rng.f64_in(0.2, 8.0)).to64(), T::of(rng.f64_in(0.2, 8.0)).to64());
+    let aspect = T::of(w / h).to64();
+    let eps = T::of(*rng.pick(&[0.0, 1e-6, 1.0 / 1024.0, 0.125])).to64();
+    let pl = FrustumPlanes { left: T::of(l), right: T::of(r), bottom: T::of(b), top: T::of(t), near: T::of(n), far: T::of(f) };
+    let ty = format!("{}4<{}>", lay, T::TY);
+    let k = 256.0 * T::EPS;
+    for (which, &(api, fam, hand, depth)) in FCTORS.iter().enumerate() {
+        let inputs = || format!("planes l={:e} r={:e} b={:e} t={:e} near={:e} far={:e}; fov={:e} rad aspect={:e} (width {:e}, height {:e}) epsilon={:e}", l, r, b, t, n, f, fov, aspect, w, h, eps);
+        sub.saw(api);
+        let m = match guarded(|| M::build(which, pl, T::of(fov), T::of(aspect), T::of(w), T::of(h), T::of(n), T::of(f), T::of(eps))) {
+            Ok(m) => m,
+            Err(p) => {
+                let v = violation(PROP, sub, api, &ty, "panic", "panic_inside_domain", format!("{} panicked: {}", inputs(), p), cfg.case_seed(), idx);
+                sub.violated(v);
+                continue;
+            }
+        };
+        let mut a = [[0.0f64; 4]; 4];
+        for i in 0..4 {
+            for j in 0..4 {
+                a[i][j] = m.at(i, j).to64();
+            }
+        }
+        let zs = if hand == L { 1.0 } else { -1.0 };
+        let nd = if depth == ZO { 0.0 } else { -1.0 };
+        // view volume of this constructor and the conditioning of its entries
+        let (vl, vr, vb, vt) = if fam <= 2 {
+            (l, r, b, t)
+        } else {
+            let top = n * (fov / 2.0).tan();
+            let asp = if fam == 4 { w / h } else { aspect };
+            (-top * asp, top * asp, -top, top)
+        };
+        let cond = 1.0 + (vl.abs() + vr.abs()) / (vr - vl).abs() + (vb.abs() + vt.abs()) / (vt - vb).abs() + if fam >= 5 { 1.0 } else { (n + f) / (f - n).abs() };
+        let tol = k * cond;
+        // points: (x, y, z, expected x, expected y, expected depth or NaN for "do not care")
+        let mut pts: Vec<([f64; 3], [f64; 3], String)> = Vec::new();
+        let dists: Vec<(f64, f64, &str)> = match fam {
+            0 => vec![(n, f64::NAN, "near"), (f, f64::NAN, "far")],
+            1 | 2 | 3 | 4 => vec![(n, nd, "near"), (f, 1.0, "far")],
+            _ => {
+                let e = if fam == 5 { eps } else { 0.0 };
+                let (d1, d2) = (n * 3.0, n * 40.0);
+                vec![(n, -1.0, "near"), (d1, (1.0 - e) - (2.0 - e) * n / d1, "3*near"), (d2, (1.0 - e) - (2.0 - e) * n / d2, "40*near")]
+            }
+        };
+        for (dist, ez, dn) in dists {
+            let kx = if fam <= 1 { 1.0 } else { dist / n };
+            for (x, ex, xn) in [(vl, -1.0, "left"), (vr, 1.0, "right")] {
+                for (y, ey, yn) in [(vb, -1.0, "bottom"), (vt, 1.0, "top")] {
+                    pts.push(([x * kx, y * kx, zs * dist], [ex, ey, ez], format!("corner ({},{},{})", xn, yn, dn)));
+                }
+            }
+        }
+        let mut fail: Option<(&'static str, String)> = None;
+        for (p, e, label) in &pts {
+            let c: Vec<f64> = (0..4).map(|i| a[i][0] * p[0] + a[i][1] * p[1] + a[i][2] * p[2] + a[i][3]).collect();
+            let wv = c[3];
+            if fam >= 2 && !(wv > 0.0) {
+                fail = Some(("w_not_positive_in_front", format!("{} {:?} -> clip {:?}: w must be > 0", label, p, c)));
+                break;
+            }
+            let ndc = [c[0] / wv, c[1] / wv, c[2] / wv];
+            let bad_xy = !((ndc[0] - e[0]).abs() <= tol) || !((ndc[1] - e[1]).abs() <= tol);
+            let bad_z = if fam == 0 { !((ndc[2] - p[2]).abs() <= tol * (1.0 + p[2].abs())) } else { !((ndc[2] - e[2]).abs() <= tol) };
+            if bad_xy || bad_z {
+                fail = Some((if bad_z && !bad_xy { "depth" } else { "corner_off_the_clip_volume" }, format!("{} {:?} -> clip {:?} -> after divide {:?}, expected ({}, {}, {}) within {:e}", label, p, c, ndc, e[0], e[1], if fam == 0 { p[2] } else { e[2] }, tol)));
+                break;
+            }
+        }
+        let mut hh = H64::new();
+        hh.s(api).s(&ty);
+        for x in [l, r, b, t, n, f, fov, w, h, eps] {
+            hh.f(x);
+        }
+        match fail {
+            None => {
+                sub.held(hh.get(), true);
+                sub.sample(|| format!("{} [{}] {}: all corners on the clip volume within {:e}", api, ty, inputs(), tol));
+            }
+            Some((what, msg)) => {
+                let v = violation(PROP, sub, api, &ty, "wrong_value", what, format!("{}; matrix (rows) = {:?}; {}", inputs(), a, msg), cfg.case_seed(), idx);
+                sub.violated(v);
+            }
+        }
+    }
+}
+
 fn main() {
     let cfg = Config::from_args(PROP);
     let mut rep = Report::new(cfg.clone());
@@ -792,6 +990,22 @@ fn main() {
         rep.push(run_cases(&cfg, proto, n, |s, i| {
             mirror_case::<Rows4<Q>>(s, &cfg, i);
             mirror_case::<Cols4<Q>>(s, &cfg, i);
+        }));
+    }
+    {
+        let nf = cfg.n(1_000, 100_000);
+        let apis: Vec<&str> = FCTORS.iter().map(|c| c.0).collect();
+        let proto = Sub::new(
+            "float_corners",
+            "f32 and f64, both layouts: per index one random volume (planes in [-10,10] at least 5% apart, near 0.01..30, far/near 1.2..1000) and one field of view (a third narrow, 3e-4..0.3 rad, the rest 0.1..3 rad; width, height 0.2..8) through all 21 constructors; the 8 corners (infinite perspective: near corners and the cross-sections at 3 and 40 times near) through the returned matrix (raw fields, arithmetic in f64) must land on the clip-volume corners within 256 eps * (1 + (|l|+|r|)/|r-l| + (|b|+|t|)/|t-b| + (n+f)/|f-n|) and get w > 0; distinct by (constructor, layout, type, inputs)",
+        )
+        .with_floor(nf * 21 * 2)
+        .require(&apis);
+        rep.push(run_cases(&cfg, proto, nf, |s, i| {
+            float_case::<f32, Rows4<f32>>(s, &cfg, i, "Rows");
+            float_case::<f32, Cols4<f32>>(s, &cfg, i, "Cols");
+            float_case::<f64, Rows4<f64>>(s, &cfg, i, "Rows");
+            float_case::<f64, Cols4<f64>>(s, &cfg, i, "Cols");
         }));
     }
     std::process::exit(rep.finish());
